@@ -479,7 +479,10 @@ func (node *GoValueNode) CallFunction(funcName string, args ...reflect.Value) (r
 		case "Len":
 			arrFunc = ArrMapLen
 		case "Append":
-			node.AppendValue(args)
+			if err := node.AppendValue(args); err != nil {
+
+				return reflect.Value{}, err
+			}
 
 			return reflect.Value{}, nil
 		}
